@@ -16,12 +16,22 @@ wt = f"/tmp/confirm_{prop}_{var}"
 def sh(cmd, cwd=None, timeout=3000):
     r = subprocess.run(cmd, shell=True, cwd=cwd, capture_output=True, text=True, timeout=timeout)
     return r.returncode, r.stdout + r.stderr
-def suite(feat=False):
+def suite_once(feat=False):
     rc, out = sh("cargo nextest run --workspace --no-fail-fast --offline --test-threads 8" + (" --features security" if feat else ""), cwd=wt)
     m = re.search(r"(\d+) tests run: (\d+) passed(?: \(\d+ \w+\))?(?:, (\d+) failed)?", out)
     failed = re.findall(r"^\s+FAIL \[.*?\] \(\s*\d+/\d+\) (\S+ \S+)", out, re.M)
     if not m: return {"error": out[-1500:]}
     return {"run": int(m.group(1)), "passed": int(m.group(2)), "failed": int(m.group(3) or 0), "failed_tests": sorted(set(failed))[:12]}
+def suite(feat=False):
+    # the suite's own UDP discovery tests are flaky when several suites run on the machine at once:
+    # a test counts as failed only if it fails in two consecutive runs
+    r = suite_once(feat)
+    if r.get("failed"):
+        r2 = suite_once(feat)
+        if "error" not in r2:
+            both = sorted(set(r["failed_tests"]) & set(r2["failed_tests"]))
+            r = {"run": r["run"], "passed": r["run"] - len(both), "failed": len(both), "failed_tests": both, "flaky_in_first_run": sorted(set(r["failed_tests"]) - set(both))}
+    return r
 meta = {"property": prop, "variant": var, "repo_commit": sh("git -C /repo rev-parse --short HEAD")[1].strip()}
 if phase2:
     meta = json.load(open(f"{src}/meta1.json"))
